@@ -329,7 +329,7 @@ def natKeyBy (key : Bytes) (m : GoVal) : R Bytes :=
     | .map .str _ kvs => GoVal.mapFind kvs (.str key)
     | .keyedMap fs => GoVal.lookupFields fs key
     | _ => none
-  match entry with
+  match entry.map GoVal.toLiquid with          -- the entry is resolved by `values.ToLiquid` (one level) before the string test
   | some (.str s) => caseRes (StrF.downcase s)
   | _ => .ok []
 
